@@ -271,6 +271,18 @@ class FLib(Lib):
                 L.verif_alloc_reset.restype = None; L.verif_alloc_reset.argtypes = []
             for n in ("verif_dctx_remaining", "verif_dctx_tmpInSize", "verif_dctx_tmpInTarget", "verif_dctx_maxBlockSize", "verif_dctx_maxBufferSize"):
                 f = getattr(L, n); f.restype = ctypes.c_ulonglong; f.argtypes = [P]
+            self.ddpeek = hasattr(L, "verif_dctx_dict_class")
+            if self.ddpeek:
+                L.verif_dctx_dict_class.restype = ctypes.c_int; L.verif_dctx_dict_class.argtypes = [P]
+                L.verif_dctx_tmpOut_off.restype = ctypes.c_longlong; L.verif_dctx_tmpOut_off.argtypes = [P]
+                for n in ("verif_dctx_dict_value", "verif_dctx_dictSize", "verif_dctx_tmpOutSize", "verif_dctx_tmpOutStart"):
+                    f = getattr(L, n); f.restype = ctypes.c_ulonglong; f.argtypes = [P]
+    def ddstate(self, ctx):
+        """the dictionary / tmpOut bookkeeping Model.FrameDDict mirrors: dict (class: 0 NULL, 1 tmpOutBuffer+offset, 2 caller
+        address), dictSize, tmpOut-tmpOutBuffer, tmpOutSize, tmpOutStart"""
+        L = self.L
+        return "%d,%d,%d,%d,%d,%d" % (L.verif_dctx_dict_class(ctx), L.verif_dctx_dict_value(ctx), L.verif_dctx_dictSize(ctx),
+                                      L.verif_dctx_tmpOut_off(ctx), L.verif_dctx_tmpOutSize(ctx), L.verif_dctx_tmpOutStart(ctx))
     def dstate(self, ctx):
         """the private dctx fields the model mirrors: stage, frameRemainingSize, tmpInSize, tmpInTarget, maxBlockSize, maxBufferSize, skipChecksum"""
         L = self.L
@@ -331,11 +343,14 @@ class CDctx:
             db = Buf(cap, data=fillpat(cap, salt)); dp = db.p; dsz = c_size_t(cap)
         opts = DOpts(1 if stable else 0, 1 if skip else 0, 0, 0)
         if self.logged: lib.L.verif_alloc_reset()
+        self.last_dst = int(dp) if dp else 0        # addresses of this call's dst buffer and dictionary (for Model.FrameDDict)
+        self.last_dict = 0
         if dict_ is not None:
             if isinstance(dict_, Buf):
                 dbuf = dict_
             else:
                 dbuf = Buf(len(dict_), data=dict_); self.keep.append(dbuf)
+            self.last_dict = int(dbuf.p) if dbuf.p else 0
             r = lib.F_decompress_usingDict(self.ctx, dp, byref(dsz), sb.p, byref(ssz), dbuf.p, dbuf.n, byref(opts))
         else:
             r = lib.F_decompress(self.ctx, dp, byref(dsz), sb.p, byref(ssz), byref(opts))
@@ -390,16 +405,18 @@ class MDctx:
     def __init__(self, orc):
         self.orc = orc
         self.id = orc.ask("new")
-    def decompress(self, src, cap, dstnull=False, skip=False, dict_=None):
+    def decompress(self, src, cap, dstnull=False, skip=False, dict_=None, stable=False, dstaddr=None, dictaddr=0):
         if dict_ is not None and getattr(self.orc, "_cur_dict", None) != dict_:
             self.orc.ask("setdict", hx(dict_)); self.orc._cur_dict = dict_
+        extra = [] if dstaddr is None else ["1" if stable else "0", str(dstaddr), str(dictaddr)]
         a = self.orc.ask("dec", self.id, hx(src), str(cap), "1" if dstnull else "0", "1" if skip else "0",
-                         "1" if dict_ is not None else "0").split()
+                         "1" if dict_ is not None else "0", *extra).split()
         if len(a) < 8:
             raise RuntimeError("oracle: " + " ".join(a))
         st = [x for x in a if x.startswith("st=")]
         capm = [x for x in a if x.startswith("cap=")]
-        return {"tmpInCap": int(capm[0][4:]) if capm else None, "consumed": int(a[0]), "produced": int(a[1]), "ret": int(a[2]), "fuel": a[3], "oob": a[4], "stage": a[5],
+        ddm = [x for x in a if x.startswith("dd=")]
+        return {"ddbounds": "bounds=BAD" not in a, "dd": ddm[0][3:] if (ddm and dstaddr is not None) else None, "tmpInCap": int(capm[0][4:]) if capm else None, "consumed": int(a[0]), "produced": int(a[1]), "ret": int(a[2]), "fuel": a[3], "oob": a[4], "stage": a[5],
                 "outlen": int(a[6]), "outmd5": a[7], "state": st[0][3:] if st else None}
     def reset(self):
         self.orc.ask("reset", self.id)
@@ -509,12 +526,14 @@ class Session:
             return "prop", "produced %d > capacity %d" % (c_prod, cap)
         if self.model_dead:
             return "ok", (c_cons, img[:c_prod], c_ret)
-        m = self.md.decompress(src, cap, dstnull, skip, dict_)
+        m = self.md.decompress(src, cap, dstnull, skip, dict_, stable, getattr(self.cd, "last_dst", None), getattr(self.cd, "last_dict", 0))
         problems = []
         if m["fuel"] != "ok":
             problems.append("model ran out of fuel (theorem C08_no_fuel_out contradicted)")
         if m["oob"] != "ok":
             problems.append("model staging buffer overflow flag set (theorem C08_staging_in_bounds contradicted)")
+        if not m.get("ddbounds", True):
+            problems.append("call %d: a memcpy / decoder call of the dictionary bookkeeping model (Model.FrameDDict) leaves tmpOutBuffer[0,maxBufferSize) or the dst window, or overlaps (op_ok of C08_tmpOut_in_bounds_partial violated)" % self.calls)
         if (c_cons, c_prod, c_ret) != (m["consumed"], m["produced"], m["ret"]):
             problems.append("call %d (src %d bytes, cap %d): code (consumed=%d, produced=%d, ret=%d) model (consumed=%d, produced=%d, ret=%d) model stage %s" % (
                 self.calls, len(src), cap, c_cons, c_prod, c_ret, m["consumed"], m["produced"], m["ret"], m["stage"]))
@@ -531,6 +550,13 @@ class Session:
                         self.calls, al[-2], al[-1], want[0], want[1]))
             if cs != m["state"]:
                 problems.append("call %d: context fields (stage,remaining,tmpInSize,tmpInTarget,maxBlockSize,maxBufferSize,skip) code %s model %s" % (self.calls, cs, m["state"]))
+            elif getattr(self.lib, "ddpeek", False) and m.get("dd") is not None:
+                cdd = self.lib.ddstate(self.cd.ctx)
+                k = "ddict_%s%s" % ({"0": "null", "1": "tmpOutBuffer", "2": "caller"}[cdd.split(",")[0]], "_stableDst" if stable else "")
+                self.stages[k] = self.stages.get(k, 0) + 1      # compared states, by where dctx->dict points after the call
+                if cdd != m["dd"]:
+                    problems.append("call %d (cap %d, dst@%d, stableDst=%d): dictionary bookkeeping (dict class,dict offset/address,dictSize,tmpOut-tmpOutBuffer,tmpOutSize,tmpOutStart) code %s model FrameDDict %s" % (
+                        self.calls, cap, self.cd.last_dst, 1 if stable else 0, cdd, m["dd"]))
         if problems:
             cls = self.classify_blockdec()
             if cls:
